@@ -146,7 +146,9 @@ func c14Transport(e c14enc, v kmip.ProtocolVersion, req *kmip.RequestMessage) (*
 	return gp, nil
 }
 
-type equaler interface{ Equal(x crypto.PrivateKey) bool }
+type equaler interface {
+	Equal(x crypto.PrivateKey) bool
+}
 type pubEqualer interface{ Equal(x crypto.PublicKey) bool }
 
 func runC14(c *vlib.Check) {
@@ -154,6 +156,7 @@ func runC14(c *vlib.Check) {
 		"RSA keys of 1024 and 2048 bits assembled from primes found by deterministic search, symmetric keys and secrets of lengths 0..33 — x every register format the builder offers " +
 		"(PKCS#1, PKCS#8, SEC1, X.509 SPKI, transparent RSA/ECDSA/EC, raw, transparent symmetric, generic PrivateKey/PublicKey entry points) x client versions 1.0..1.4 x {binary, XML, JSON}: " +
 		"builder -> Register request -> wire -> object -> Get response -> wire -> accessors, compared with Equal. " +
+		"part 3: the same keys, two per session, through a real connection (kmipclient and a scripted key server, both over ttlv.Stream on an in-memory pipe): Register A, Register B, Get A, Get B, then the accessors on both held responses. " +
 		"part 2: every object type x key format x {key value absent, wrapped, plain} x every subset of optional parts missing (2^7 subsets of the optional RSA integers, material absent, attributes absent) " +
 		"that survives an encode/decode round trip x all 16 accessors: no panic. distinct = distinct (key, format, version, encoding) or (object shape, accessor) cases"
 	c.Assumptions = []string{"keys are compared with the standard library's Equal methods; RSA moduli are represented by 6 deterministic keys (boundary classes), not by all moduli"}
@@ -175,7 +178,9 @@ func runC14(c *vlib.Check) {
 			}{{"SEC1", kmipclient.SEC1}, {"PKCS8", kmipclient.PKCS8}, {"Transparent", kmipclient.Transparent}, {"default", 0}} {
 				f := f
 				cases = append(cases, keyCase{fmt.Sprintf("ECDSA %s d=0x%x private %s", cv.Params().Name, d, f.n),
-					func(cl *kmipclient.Client) kmipclient.ExecRegister { return cl.Register().WithKeyFormat(f.f).EcdsaPrivateKey(k, usage) },
+					func(cl *kmipclient.Client) kmipclient.ExecRegister {
+						return cl.Register().WithKeyFormat(f.f).EcdsaPrivateKey(k, usage)
+					},
 					func(gp *payloads.GetResponsePayload) error {
 						got, err := gp.EcdsaPrivateKey()
 						if err != nil {
@@ -200,7 +205,9 @@ func runC14(c *vlib.Check) {
 			}{{"X509", kmipclient.X509}, {"Transparent", kmipclient.Transparent}} {
 				f := f
 				cases = append(cases, keyCase{fmt.Sprintf("ECDSA %s d=0x%x public %s", cv.Params().Name, d, f.n),
-					func(cl *kmipclient.Client) kmipclient.ExecRegister { return cl.Register().WithKeyFormat(f.f).EcdsaPublicKey(&k.PublicKey, kmip.CryptographicUsageVerify) },
+					func(cl *kmipclient.Client) kmipclient.ExecRegister {
+						return cl.Register().WithKeyFormat(f.f).EcdsaPublicKey(&k.PublicKey, kmip.CryptographicUsageVerify)
+					},
 					func(gp *payloads.GetResponsePayload) error {
 						got, err := gp.EcdsaPublicKey()
 						if err != nil {
@@ -238,7 +245,9 @@ func runC14(c *vlib.Check) {
 		}{{"PKCS1", kmipclient.PKCS1}, {"PKCS8", kmipclient.PKCS8}, {"Transparent", kmipclient.Transparent}, {"default", 0}} {
 			f := f
 			cases = append(cases, keyCase{label + " private " + f.n,
-				func(cl *kmipclient.Client) kmipclient.ExecRegister { return cl.Register().WithKeyFormat(f.f).RsaPrivateKey(k, usage) },
+				func(cl *kmipclient.Client) kmipclient.ExecRegister {
+					return cl.Register().WithKeyFormat(f.f).RsaPrivateKey(k, usage)
+				},
 				func(gp *payloads.GetResponsePayload) error {
 					got, err := gp.RsaPrivateKey()
 					if err != nil {
@@ -263,7 +272,9 @@ func runC14(c *vlib.Check) {
 		}{{"PKCS1", kmipclient.PKCS1}, {"X509", kmipclient.X509}, {"Transparent", kmipclient.Transparent}} {
 			f := f
 			cases = append(cases, keyCase{label + " public " + f.n,
-				func(cl *kmipclient.Client) kmipclient.ExecRegister { return cl.Register().WithKeyFormat(f.f).RsaPublicKey(&k.PublicKey, kmip.CryptographicUsageVerify) },
+				func(cl *kmipclient.Client) kmipclient.ExecRegister {
+					return cl.Register().WithKeyFormat(f.f).RsaPublicKey(&k.PublicKey, kmip.CryptographicUsageVerify)
+				},
 				func(gp *payloads.GetResponsePayload) error {
 					got, err := gp.RsaPublicKey()
 					if err != nil {
@@ -294,7 +305,9 @@ func runC14(c *vlib.Check) {
 		}{{"RAW", kmipclient.RAW}, {"Transparent", kmipclient.Transparent}} {
 			f := f
 			cases = append(cases, keyCase{fmt.Sprintf("symmetric key of %d bytes %s", l, f.n),
-				func(cl *kmipclient.Client) kmipclient.ExecRegister { return cl.Register().WithKeyFormat(f.f).SymmetricKey(kmip.CryptographicAlgorithmAES, kmip.CryptographicUsageEncrypt, key) },
+				func(cl *kmipclient.Client) kmipclient.ExecRegister {
+					return cl.Register().WithKeyFormat(f.f).SymmetricKey(kmip.CryptographicAlgorithmAES, kmip.CryptographicUsageEncrypt, key)
+				},
 				func(gp *payloads.GetResponsePayload) error {
 					got, err := gp.SymmetricKey()
 					if err != nil {
@@ -307,7 +320,9 @@ func runC14(c *vlib.Check) {
 				}})
 		}
 		cases = append(cases, keyCase{fmt.Sprintf("secret of %d bytes", l),
-			func(cl *kmipclient.Client) kmipclient.ExecRegister { return cl.Register().Secret(kmip.SecretDataTypePassword, key) },
+			func(cl *kmipclient.Client) kmipclient.ExecRegister {
+				return cl.Register().Secret(kmip.SecretDataTypePassword, key)
+			},
 			func(gp *payloads.GetResponsePayload) error {
 				got, err := gp.Secret()
 				if err != nil {
@@ -372,6 +387,98 @@ func runC14(c *vlib.Check) {
 		}
 	})
 	c.Extra["part1_key_transports"] = n1
+	// part 3: the same keys through a real connection (kmipclient over an in-memory pipe, requests and responses framed by
+	// ttlv.Stream on both sides), two keys per session: Register A, Register B, Get A, Get B, and only then the accessors on
+	// both held responses - neither the object kept by the server nor the response kept by the client may be disturbed by
+	// the messages that followed it on the connection.
+	var n3 int64
+	vlib.Parallel(len(cases), 0, func(i int) {
+		pair := []keyCase{cases[i], cases[(i+1)%len(cases)]}
+		for _, v := range msg.Versions {
+			label := fmt.Sprintf("session [%s | %s] @%d.%d", pair[0].name, pair[1].name, v.ProtocolVersionMajor, v.ProtocolVersionMinor)
+			rep := map[string]any{"kind": "key-session", "case": label}
+			a, b := net.Pipe()
+			srvDone := make(chan struct{})
+			go func() { // scripted key server: keeps the decoded objects, answers Get with them
+				defer close(srvDone)
+				defer b.Close()
+				st := ttlv.NewStream(b, 0)
+				store := map[string]*payloads.RegisterRequestPayload{}
+				for {
+					var req kmip.RequestMessage
+					if err := st.Recv(&req); err != nil || len(req.BatchItem) != 1 {
+						return
+					}
+					bi := kmip.ResponseBatchItem{Operation: req.BatchItem[0].Operation}
+					switch p := req.BatchItem[0].RequestPayload.(type) {
+					case *payloads.RegisterRequestPayload:
+						id := fmt.Sprintf("k%d", len(store))
+						store[id] = p
+						bi.ResponsePayload = &payloads.RegisterResponsePayload{UniqueIdentifier: id}
+					case *payloads.GetRequestPayload:
+						if r := store[p.UniqueIdentifier]; r != nil {
+							bi.ResponsePayload = &payloads.GetResponsePayload{ObjectType: r.ObjectType, UniqueIdentifier: p.UniqueIdentifier, Object: r.Object}
+						} else {
+							bi.ResultStatus, bi.ResultReason = kmip.ResultStatusOperationFailed, kmip.ResultReasonItemNotFound
+						}
+					default:
+						bi.ResultStatus, bi.ResultReason = kmip.ResultStatusOperationFailed, kmip.ResultReasonOperationNotSupported
+					}
+					resp := kmip.ResponseMessage{Header: kmip.ResponseHeader{ProtocolVersion: req.Header.ProtocolVersion, BatchCount: 1}, BatchItem: []kmip.ResponseBatchItem{bi}}
+					if err := st.Send(&resp); err != nil {
+						return
+					}
+				}
+			}()
+			func() {
+				dialer := func(ctx context.Context) (net.Conn, error) { return a, nil }
+				cl, err := kmipclient.DialContext(context.Background(), "pipe", kmipclient.WithDialerUnsafe(dialer), kmipclient.EnforceVersion(v))
+				if err != nil {
+					c.Violation("machinery:dial", err.Error(), nil)
+					_ = a.Close()
+					return
+				}
+				defer cl.Close()
+				var ids []string
+				for _, kc := range pair {
+					var r *payloads.RegisterResponsePayload
+					var rerr error
+					if pv, site := vlib.Catch(func() { r, rerr = kc.build(cl).ExecContext(context.Background()) }); pv != nil {
+						c.Violation("register-panic:"+site, fmt.Sprintf("%s: %v", label, pv), rep)
+						return
+					}
+					if rerr != nil || r == nil {
+						return // a key the builder refuses (empty key): covered by part 1
+					}
+					ids = append(ids, r.UniqueIdentifier)
+				}
+				var gps []*payloads.GetResponsePayload
+				for _, id := range ids {
+					gp, gerr := cl.Get(id).ExecContext(context.Background())
+					if gerr != nil {
+						c.Violation("session:get-failed:"+ErrClass(gerr), fmt.Sprintf("%s: Get(%s): %v", label, id, gerr), rep)
+						return
+					}
+					gps = append(gps, gp)
+				}
+				c.Eval([]byte(label), true)
+				atomic.AddInt64(&n3, 1)
+				for j, kc := range pair {
+					var cerr error
+					if pv, site := vlib.Catch(func() { cerr = kc.check(gps[j]) }); pv != nil {
+						c.Violation("accessor-panic:"+site, fmt.Sprintf("%s: accessor panicked on key %d: %v", label, j, pv), rep)
+						continue
+					}
+					if cerr != nil {
+						c.Violation("session:key-differs:"+keyClass(kc.name), fmt.Sprintf("%s: key %d extracted after the later exchanges of the session: %v", label, j, cerr), rep)
+					}
+				}
+			}()
+			_ = a.Close()
+			<-srvDone
+		}
+	})
+	c.Extra["part3_key_sessions"] = n3
 	c14Totality(c)
 	c.Exhaustive = true
 }
